@@ -1694,3 +1694,13 @@ Proof.
   first [ discriminate Hfix
         | exists [1; 2; 3]%nat, 2%nat, 9%nat, 10%nat; vm_compute; discriminate ].
 Qed.
+
+(** [run_state] (used by the correspondence for Latest() and a late Add) is [run]
+    plus the final queue *)
+Lemma run_state_run n : forall q, (fst (fst (run_state n q)), snd (fst (run_state n q))) = run n q.
+Proof.
+  induction n as [|n IH]; intros q; [reflexivity|]. cbn [run_state run].
+  destruct (next q) as [|v q'| | |]; try reflexivity.
+  specialize (IH q'). destruct (run_state n q') as [[tr e] qf]. cbn in *.
+  rewrite <- IH. reflexivity.
+Qed.
